@@ -534,20 +534,22 @@ def main(pid, tier):
         for m in names:
             if m in o["ev"] and m != "ovni":
                 streams[lr.randrange(ns)]["ev"].append(m)
-        # decoys: names that are not models (an extension and a proper prefix of a model name that no
-        # stream requires) in the require table of half of the cases; they require nothing
-        if lr.random() < 0.5:
+        # decoys: names that are not models (an extension of the name of a model that no stream
+        # requires) in the require table of half of the cases; they require nothing
+        decoys = lr.random() < 0.5
+        if decoys:
             for m in names:
                 if m not in o["req"] and m != "ovni":
                     k = lr.randrange(ns)
                     streams[k]["req"][m + "2"] = models[m]["version"]
-                    streams[k]["req"][m[:-1]] = models[m]["version"]
-        return streams, run_emu(bdir, streams, models, o["all"])
+        return (streams, decoys), run_emu(bdir, streams, models, o["all"])
 
     results = core.pmap(emu_model_case, sel)
     nobs = 0
-    for o, (streams, res) in zip(sel, results):
+    for o, ((streams, decoys), res) in zip(sel, results):
         tv = o["tv"]
+        if decoys and tv == "accept":
+            tv = "either"       # whether a trace naming an unknown model in its requirements is processed at all is open
         ck.case("models ev=%s req=%s all=%s" % (sorted(o["ev"]), sorted(o["req"]), o["all"]),
                 nontrivial=len(o["ev"]) > 1)
         good = res["accepted"] if tv == "accept" else refused(res) if tv == "reject" else True
